@@ -368,6 +368,11 @@ class Comparer(object):
 
     def stmt(self, a, b):
         self.nodes += 1
+        if a.k == 'Binary' and b.k == 'Binary' and a.a.get('op') == ',' and b.a.get('op') == ',':
+            # `++i, ++j` in statement position: both operands are evaluated for their effect only
+            self.stmt(a.c[0], b.c[0])
+            self.stmt(a.c[1], b.c[1])
+            return
         ia, ib = incr_form(a), incr_form(b)
         if ia and ib:
             if ia[1] != ib[1]:
